@@ -41,6 +41,13 @@ impl Default for Condvar { fn default() -> Self { Condvar::new() } }
 impl Condvar {
     pub fn new() -> Self { Condvar { id: new_obj(Obj::Condvar { waiters: vec![], notified: vec![] }) } }
     pub fn notify_all(&self) -> usize { point(Op::CondNotifyAll(self.id)); 0 }
+    /// wakes one waiter — which one is the explorer's (adversarial) choice
+    pub fn notify_one(&self) -> bool {
+        let n = with_obj(self.id, |o| if let Obj::Condvar { waiters, .. } = o { waiters.len() } else { 0 }).unwrap_or(0);
+        let k = detsched::choose(n.max(1));
+        point(Op::CondNotifyOneAt(self.id, k));
+        n > 0
+    }
     pub fn wait<T: ?Sized>(&self, g: &mut MutexGuard<'_, T>) { point(Op::CondWait(self.id, g.m.id)); point(Op::CondReacquire(self.id, g.m.id)); }
 }
 
@@ -60,3 +67,13 @@ impl<T: ?Sized> Mutex<T> {
         with_obj(self.id, |o| matches!(o, Obj::Mutex { owner: None })).unwrap_or(true)
     }
 }
+
+impl<T: ?Sized> RwLock<T> {
+    pub fn try_read(&self) -> Option<RwLockReadGuard<'_, T>> { point(Op::Yield("try-read")); if self.stub_can_read() { with_obj(self.id, |o| if let Obj::RwLock { readers, .. } = o { *readers += 1 }); Some(RwLockReadGuard { l: self }) } else { None } }
+    pub fn try_write(&self) -> Option<RwLockWriteGuard<'_, T>> { point(Op::Yield("try-write")); if self.stub_can_write() { with_obj(self.id, |o| if let Obj::RwLock { writer, .. } = o { *writer = Some(detsched::current_tid().unwrap_or(0)) }); Some(RwLockWriteGuard { l: self }) } else { None } }
+}
+impl<T: ?Sized> Mutex<T> {
+    pub fn try_lock(&self) -> Option<MutexGuard<'_, T>> { point(Op::Yield("try-lock")); if self.stub_can_lock() { with_obj(self.id, |o| *o = Obj::Mutex { owner: Some(detsched::current_tid().unwrap_or(0)) }); Some(MutexGuard { m: self }) } else { None } }
+    pub fn get_mut(&mut self) -> &mut T { self.data.get_mut() }
+}
+impl<T> Mutex<T> { pub fn into_inner(self) -> T { self.data.into_inner() } }
